@@ -151,22 +151,25 @@ class MinimizerBase(object):
         _ = self.parameter_errors  # call par error property so they're initialized for _save_state
         self._save_state()
         _asymm_par_errs = np.zeros(shape=self.parameter_values.shape + (2,))
-        for _par_index, _par_name in enumerate(self.parameter_names):
-            if self.is_fixed(_par_name):
-                _asymm_par_errs[_par_index, :] = 0
-            else:
-                _target_chi_2 = self.function_value + 1.0
-                _min_parameters = self.parameter_values
+        try:
+            for _par_index, _par_name in enumerate(self.parameter_names):
+                if self.is_fixed(_par_name):
+                    _asymm_par_errs[_par_index, :] = 0
+                else:
+                    _target_chi_2 = self.function_value + 1.0
+                    _min_parameters = self.parameter_values
 
-                _par_min = self.parameter_values[_par_index]
-                _par_err = self.parameter_errors[_par_index]
+                    _par_min = self.parameter_values[_par_index]
+                    _par_err = self.parameter_errors[_par_index]
 
-                _cut_dn = self._find_cost_cut(_par_name, _par_min - _par_err, _target_chi_2, _min_parameters)
-                _asymm_par_errs[_par_index, 0] = _cut_dn - _par_min
+                    _cut_dn = self._find_cost_cut(_par_name, _par_min - _par_err, _target_chi_2, _min_parameters)
+                    _asymm_par_errs[_par_index, 0] = _cut_dn - _par_min
 
-                _cut_up = self._find_cost_cut(_par_name, _par_min + _par_err, _target_chi_2, _min_parameters)
-                _asymm_par_errs[_par_index, 1] = _cut_up - _par_min
-                self._load_state()
+                    _cut_up = self._find_cost_cut(_par_name, _par_min + _par_err, _target_chi_2, _min_parameters)
+                    _asymm_par_errs[_par_index, 1] = _cut_up - _par_min
+                    self._load_state()
+        finally:
+            self._load_state()  # return to the minimum, also if the calculation fails
         return _asymm_par_errs
 
     def _get_cost_value(self, parameter_name, parameter_value, min_parameters):
